@@ -18,8 +18,9 @@ Section PeelDP.
   Variable topo : list node.
   Hypothesis topo_sorted : sorted preds [] topo.
   Hypothesis topo_all : forall e, In e G -> In (fst e) topo /\ In (snd e) topo.
+  Variable keyerr : bool.
 
-  Definition find_mb (f : edge -> Z) : outcome := max_bottleneck f preds succs topo.
+  Definition find_mb (f : edge -> Z) : mb_outcome := max_bottleneck f preds succs keyerr topo.
 
   Lemma ins_nil v : ins G v = [] <-> preds v = [].
   Proof.
@@ -46,7 +47,7 @@ Section PeelDP.
     0 < b /\ ss_path G p /\ (forall e, In e (pairs p) -> b <= f e) /\ (exists e, In e (pairs p) /\ f e = b).
   Proof.
     intros N _ H. unfold find_mb in H.
-    destruct (max_bottleneck_sound G f preds succs preds_ok N topo b p topo_sorted H) as (H1 & H2 & H3 & H4 & H5 & H6 & H7).
+    destruct (max_bottleneck_sound G f preds succs preds_ok N keyerr topo b p topo_sorted H) as (H1 & H2 & H3 & H4 & H5 & H6 & H7).
     split; [assumption|]. split; [|split; assumption].
     split; [assumption|]. split; [assumption|]. split; [apply ins_nil; assumption|apply outs_nil; assumption].
   Qed.
@@ -65,26 +66,25 @@ Section PeelDP.
     { destruct p as [|y p'] using rev_ind; [congruence|]. rewrite pairs_snoc2 in HG.
       assert (In (y, a) G) by (apply HG; apply in_or_app; right; left; reflexivity). apply topo_all in H0. tauto. }
     assert (Hsa : succs a = []) by (apply outs_nil; assumption).
-    apply (max_bottleneck_complete G f preds succs preds_ok topo topo_sorted); try assumption.
-    - rewrite H. discriminate.
-    - intros b0 p0. rewrite H. discriminate.
+    apply (max_bottleneck_complete G f preds succs preds_ok keyerr topo topo_sorted); assumption.
   Qed.
 
   Lemma find_complete f : nonneg G f -> conserving G f -> find_mb f = MBNoPath ->
     forall p, ss_path G p -> exists e, In e (pairs p) /\ f e <= 0.
   Proof. intros N _. apply find_complete', N. Qed.
 
-  Lemma find_nosink : G <> [] -> forall f, find_mb f <> MBNoSink.
+  Lemma find_nosink : keyerr = false \/ G <> [] -> forall f, find_mb f <> MBNoSink.
   Proof.
-    intros Hne f E. destruct (dag_has_sink G G_nodup rank Hrank R HR Hne) as (u & v & Huv & Ho).
-    apply (max_bottleneck_nosink G f preds succs preds_ok topo topo_sorted E v).
+    intros [Hk|Hne] f E; [exact (max_bottleneck_never_nosink f preds succs keyerr topo Hk E)|].
+    destruct (dag_has_sink G G_nodup rank Hrank R HR Hne) as (u & v & Huv & Ho).
+    apply (max_bottleneck_nosink G f preds succs preds_ok keyerr topo topo_sorted E v).
     - apply (topo_all _ Huv).
     - intros X. apply preds_ok in Huv. rewrite X in Huv. destruct Huv.
     - apply outs_nil, Ho.
   Qed.
 
-  Theorem greedy_peeling_explains f : G <> [] -> nonneg G f -> conserving G f ->
-    exists D, decompose G preds succs topo f = PeelOK D /\
+  Theorem greedy_peeling_explains f : keyerr = false \/ G <> [] -> nonneg G f -> conserving G f ->
+    exists D, decompose keyerr G preds succs topo f = PeelOK D /\
               (forall e, In e G -> explained D e = f e) /\
               Forall (fun pw => ss_path G (fst pw) /\ 0 < snd pw) D /\
               (length D <= npos G f)%nat.
@@ -131,9 +131,9 @@ Proof.
   apply find_some in F. destruct F as [Hp Hv]. apply N.eqb_eq in Hv. intros Hx. exists p. tauto.
 Qed.
 
-Theorem greedy_peeling_explains_checked G P S topo (f : edge -> Z) :
-  peel_inputs_ok G P S topo = true -> G <> [] -> nonneg G f -> conserving G f ->
-  exists D, decompose G (adj_of P) (adj_of S) topo f = PeelOK D /\
+Theorem greedy_peeling_explains_checked keyerr G P S topo (f : edge -> Z) :
+  peel_inputs_ok G P S topo = true -> keyerr = false \/ G <> [] -> nonneg G f -> conserving G f ->
+  exists D, decompose keyerr G (adj_of P) (adj_of S) topo f = PeelOK D /\
             (forall e, In e G -> explained D e = f e) /\
             Forall (fun pw => ss_path G (fst pw) /\ 0 < snd pw) D /\
             (length D <= npos G f)%nat.
@@ -164,9 +164,9 @@ Proof.
     destruct (beforeb_split _ _ _ H2 H3) as (l1 & l2 & -> & Hv & _). split; apply in_or_app; right; [left; reflexivity|right; assumption].
 Qed.
 
-Theorem max_bottleneck_sound_checked G P S topo (f : edge -> Z) b p :
+Theorem max_bottleneck_sound_checked keyerr G P S topo (f : edge -> Z) b p :
   peel_inputs_ok G P S topo = true -> nonneg G f ->
-  max_bottleneck f (adj_of P) (adj_of S) topo = MBPath b p ->
+  max_bottleneck f (adj_of P) (adj_of S) keyerr topo = MBPath b p ->
   0 < b /\ pairs p <> [] /\ incl (pairs p) G /\ adj_of P (hd 0%N p) = [] /\ adj_of S (last p 0%N) = [] /\
   (forall e, In e (pairs p) -> b <= f e) /\ (exists e, In e (pairs p) /\ f e = b).
 Proof.
@@ -180,15 +180,15 @@ Proof.
     - intros Hu. destruct (adj_of_In _ _ _ Hu) as (q & Hq & <- & Hx). specialize (H5 q Hq).
       rewrite forallb_forall in H5. apply memE_In, H5, Hx.
     - intros Huv. specialize (H4 _ Huv). cbn [fst snd] in H4. apply andb_true_iff in H4. apply memN_In. tauto. }
-  apply (max_bottleneck_sound G f (adj_of P) (adj_of S) Pok N topo b p).
+  apply (max_bottleneck_sound G f (adj_of P) (adj_of S) Pok N keyerr topo b p).
   apply (sorted_ext (preds_of G)); [|apply (sorted_pred [] G topo OK)].
   intros v u Hu. apply preds_of_In, Pok, Hu.
 Qed.
 
 (* completeness: when the model reports "no path", every source-to-sink path has a non-positive edge *)
-Theorem max_bottleneck_complete_checked G P S topo (f : edge -> Z) :
+Theorem max_bottleneck_complete_checked keyerr G P S topo (f : edge -> Z) :
   peel_inputs_ok G P S topo = true -> nonneg G f ->
-  max_bottleneck f (adj_of P) (adj_of S) topo = MBNoPath ->
+  max_bottleneck f (adj_of P) (adj_of S) keyerr topo = MBNoPath ->
   forall p, ss_path G p -> exists e, In e (pairs p) /\ f e <= 0.
 Proof.
   intros HOK N HNP.
@@ -209,9 +209,18 @@ Proof.
       rewrite forallb_forall in H6. apply memE_In, H6, Hx.
     - intros Huv. specialize (H4 _ Huv). cbn [fst snd] in H4. apply andb_true_iff in H4. apply memN_In. tauto. }
   intros p Hp.
-  apply (find_complete' G (adj_of P) (adj_of S) Pok Sok topo) with (f := f); try assumption.
+  apply (find_complete' G (adj_of P) (adj_of S) Pok Sok topo) with (keyerr := keyerr) (f := f); try assumption.
   - apply (sorted_ext (preds_of G)); [|apply (sorted_pred [] G topo OK)].
     intros v u Hu. apply preds_of_In, Pok, Hu.
   - intros [u v] Huv. specialize (H3 _ Huv). cbn [fst snd] in *.
     destruct (beforeb_split _ _ _ H2 H3) as (l1 & l2 & -> & Hv & _). split; apply in_or_app; right; [left; reflexivity|right; assumption].
 Qed.
+
+(* the code as it is (switch off): no premise about the graph having an edge *)
+Theorem greedy_peeling_explains_code G P S topo (f : edge -> Z) :
+  peel_inputs_ok G P S topo = true -> nonneg G f -> conserving G f ->
+  exists D, decompose code_nosink_keyerror G (adj_of P) (adj_of S) topo f = PeelOK D /\
+            (forall e, In e G -> explained D e = f e) /\
+            Forall (fun pw => ss_path G (fst pw) /\ 0 < snd pw) D /\
+            (length D <= npos G f)%nat.
+Proof. intros H. apply greedy_peeling_explains_checked; [exact H|left; reflexivity]. Qed.
